@@ -31,11 +31,16 @@ const H_CALL: u16 = 13;
 const H_FN: u16 = 14;
 const REC: u16 = 15;
 const OPEN_IF: u16 = 16;
-const N_OPS: u16 = 17;
+const H_ALIAS_F: u16 = 17;
+const F_REASSIGN: u16 = 18;
+const H_CALLS_F: u16 = 19;
+const H_CALLS_G: u16 = 20;
+const N_OPS: u16 = 21;
 
-const OP_NAMES: [&str; 17] = [
+const OP_NAMES: [&str; 21] = [
     "x := k", "x = k", "print(x)", "{", "fn f() {", "fn g() {", "while(2) {", "for(2) {", "}",
     "f()", "g()", "return closure", "h = f()", "h()", "h = closure", "guarded f()", "if true {",
+    "h = f", "f = closure", "h = closure calling f", "h = closure calling g",
 ];
 
 #[derive(Clone, Copy, PartialEq, Debug)]
@@ -109,6 +114,8 @@ impl Alphabet for Alpha {
                 H_CALL => st.h_set,
                 H_FN => true,
                 REC => in_f && !st.rec_used,
+                H_ALIAS_F | F_REASSIGN | H_CALLS_F => self.rich && st.f_def && !in_f,
+                H_CALLS_G => self.rich && st.g_def,
                 _ => false,
             };
             if ok {
@@ -188,6 +195,22 @@ impl Alphabet for Alpha {
                 s.next_k += 1;
                 s.h_set = true;
             }
+            H_ALIAS_F => {
+                s.text.push_str("h = f\n");
+                s.h_set = true;
+            }
+            F_REASSIGN => {
+                s.text.push_str(&format!("f = fn () {{\nprint(\"f2\")\nprint(x)\nx = {}\n}}\n", k));
+                s.next_k += 1;
+            }
+            H_CALLS_F => {
+                s.text.push_str("h = fn () {\nprint(\"via h\")\nf()\n}\n");
+                s.h_set = true;
+            }
+            H_CALLS_G => {
+                s.text.push_str("h = fn () {\nprint(\"via h\")\ng()\n}\n");
+                s.h_set = true;
+            }
             REC => {
                 s.text.push_str("if d < 2 {\nd += 1\nf()\n}\n");
                 s.rec_used = true;
@@ -244,7 +267,7 @@ impl Check for C04 {
 
     fn run(&self, ctx: &mut Ctx) -> Result<(), MachineryError> {
         let depth = std::env::var("C04_DEPTH").ok().and_then(|s| s.parse().ok()).unwrap_or(ctx.tier.pick(6usize, 8usize));
-        let alpha = Alpha { rich: ctx.tier == Tier::Thorough };
+        let alpha = Alpha { rich: true };
         ctx.rule = format!(
             "breadth-first over all well-formed histories of <= {} scope operations from {{x := k, x = k, print(x), open block / fn f / fn g / while(2 iterations) / for(2 elements){}, close, f(), g(), return a closure reading and writing x, h = f(), h(), h = closure, guarded recursive f()}} on top of `x := 0; h := null`; each program is completed by reading x at every open level, closing, and calling f, g, h at top level; dead states (failure before the cursor is first reached) are not expanded; non-trivial = at least one scope-opening operation and one write of x",
             depth,
